@@ -219,4 +219,93 @@ example (dim : Nat → Dim) :
     ⟨trivial, by decide, by decide, abs_hom1, by decide, by decide⟩,
     Or.inr (Or.inr (Or.inr ⟨by decide, by decide, div_ratio⟩))⟩
 
+/-! ### `Unit.__eq__` as executed: `math.isclose` with relative tolerance 1e-9, not equality
+
+The covariance theorems of `UnytProofs/C04.lean` take `UeqSound` — units the dispatcher calls equal have
+equal scales.  That holds of `UnitV.eqv` but not of the comparison the library (and the driver, `eqFloat`)
+executes: two commensurable units whose scales differ by less than 1e-9 relative compare equal and the second
+operand is *not* rescaled (`1 aa + 1 bb` with `bb = (1 + 2e-10) m` gives `2.0 aa`).  What is true of the
+executed comparison is covariance up to that tolerance: -/
+
+/-- what `math.isclose(rel_tol = ε)` on the scales (and equal dimensions) guarantees -/
+def UeqTol (ε : ℝ) (ueq : UnitV ℝ → UnitV ℝ → Bool) : Prop :=
+  ∀ a b, ueq a b = true → |a.scale - b.scale| ≤ ε * max |a.scale| |b.scale| ∧ a.dim = b.dim
+
+/-- `Unit.__eq__` over ℝ with relative tolerance `ε` -/
+noncomputable def eqTol (ε : ℝ) (u v : UnitV ℝ) : Bool :=
+  decide (|u.scale - v.scale| ≤ ε * max |u.scale| |v.scale|)
+    && decide (|u.offset - v.offset| ≤ ε * max |u.offset| |v.offset|) && u.dim == v.dim
+
+theorem eqTol_tol (ε : ℝ) : UeqTol ε (eqTol ε) := by
+  intro a b h
+  simp only [eqTol, Bool.and_eq_true, decide_eq_true_eq, beq_iff_eq] at h
+  exact ⟨h.1.1, h.2⟩
+
+/-- 1-Lipschitz in the second argument (`+`, `−`, `max`, `min`) -/
+def Lip2 (F : ℝ → ℝ → ℝ) : Prop := ∀ a b b', |F a b - F a b'| ≤ |b - b'|
+
+theorem add_lip2 : Lip2 (fun a b => a + b) := by intro a b b'; simp
+theorem sub_lip2 : Lip2 (fun a b => a - b) := by
+  intro a b b'
+  have : a - b - (a - b') = -(b - b') := by ring
+  show |a - b - (a - b')| ≤ |b - b'|
+  rw [this, abs_neg]
+theorem max_lip2 : Lip2 (fun a b => max a b) := by
+  intro a b b'
+  show |max a b - max a b'| ≤ |b - b'|
+  rw [max_comm a b, max_comm a b']; exact abs_max_sub_max_le_abs b b' a
+
+/-- **Preserve-rule covariance for the executed unit comparison.**  With `Unit.__eq__` a relative
+    closeness test of tolerance `ε` (1e-9 in unyt), the result of a sum-like ufunc is labelled with the
+    left operand's unit and its SI magnitude differs from the kernel of the SI magnitudes by at most
+    `ε · max(|s₀|, |s₁|) · |x₁|` — exactly 0 whenever the units do not compare equal. -/
+theorem preserve_rule_covariant_isclose (ε : ℝ) (hε : 0 ≤ ε) (ueq : UnitV ℝ → UnitV ℝ → Bool)
+    (hueq : UeqTol ε ueq) (pre : Prefixes ℝ) (t : Lut ℝ) (f : String) (hf : ruleOf f = some .preserve)
+    (u0 u1 : UnitV ℝ) (z0 z1 : Bool) (h0 : u0.offset = 0) (h1 : u1.offset = 0) (hd : u0.dim = u1.dim)
+    (hs : 0 < u0.scale) :
+    ∃ o, dispatchBinary ueq pre t f ⟨some u0, z0⟩ ⟨some u1, z1⟩ none = .ok o ∧ o.unit = some u0 ∧
+      ∀ (F : ℝ → ℝ → ℝ), Hom1On Pos F → Lip2 F → ∀ x0 x1,
+        |o.si (o.value F x0 x1) - F (u0.scale * x0) (u1.scale * x1)|
+          ≤ ε * max |u0.scale| |u1.scale| * |x1| := by
+  have hc : Rule.preserve.converts = true := by decide
+  have hpm : Rule.preserve.postMul = false := by decide
+  have hp := preserveUnits_zero u0 u1 h1
+  have hs0 : u0.scale ≠ 0 := ne_of_gt hs
+  have hbound : ∀ x1 : ℝ, 0 ≤ ε * max |u0.scale| |u1.scale| * |x1| := fun x1 =>
+    mul_nonneg (mul_nonneg hε (le_max_of_le_left (abs_nonneg _))) (abs_nonneg _)
+  cases he : ueq u0 u1
+  · refine ⟨⟨some u0, u1.scale / u0.scale, 1, 1, none⟩, ?_, rfl, ?_⟩
+    · simp [dispatchBinary, binaryRule, effective_of_ne_floorDivide, hf, h1, hc, hpm, he, hd,
+        conv_zero_offsets pre t u1 u0 h1 h0 hd.symm, hp]
+    · intro F hF _ x0 x1
+      have key : u0.scale * (1 * (F x0 (x1 * (u1.scale / u0.scale)) * 1)) = F (u0.scale * x0) (u1.scale * x1) := by
+        have := hF _ hs x0 (x1 * (u1.scale / u0.scale))
+        have e : u0.scale * (x1 * (u1.scale / u0.scale)) = u1.scale * x1 := by field_simp
+        rw [e] at this
+        rw [this]; ring
+      simp only [Out.si, Out.value, Out.arg1, key, sub_self, abs_zero]
+      exact hbound x1
+  · obtain ⟨e1, _⟩ := hueq _ _ he
+    refine ⟨⟨some u0, 1, 1, 1, none⟩, ?_, rfl, ?_⟩
+    · simp [dispatchBinary, binaryRule, effective_of_ne_floorDivide, hf, h1, hc, hpm, he, hp]
+    · intro F hF hL x0 x1
+      have key : u0.scale * (1 * (F x0 (x1 * 1) * 1)) = F (u0.scale * x0) (u0.scale * x1) := by
+        have := hF _ hs x0 x1
+        rw [this]; ring_nf
+      simp only [Out.si, Out.value, Out.arg1, key]
+      calc |F (u0.scale * x0) (u0.scale * x1) - F (u0.scale * x0) (u1.scale * x1)|
+          ≤ |u0.scale * x1 - u1.scale * x1| := hL _ _ _
+        _ = |u0.scale - u1.scale| * |x1| := by rw [← sub_mul, abs_mul]
+        _ ≤ ε * max |u0.scale| |u1.scale| * |x1| := mul_le_mul_of_nonneg_right e1 (abs_nonneg _)
+
+/-- the instance the library runs, for `add`: at most 1e-9 relative to the second operand -/
+example (pre : Prefixes ℝ) (t : Lut ℝ) (u0 u1 : UnitV ℝ) (h0 : u0.offset = 0) (h1 : u1.offset = 0)
+    (hd : u0.dim = u1.dim) (hs : 0 < u0.scale) (x0 x1 : ℝ) :
+    ∃ o, dispatchBinary (eqTol 1e-9) pre t "add" ⟨some u0, false⟩ ⟨some u1, false⟩ none = .ok o ∧
+      |o.si (o.value (fun a b => a + b) x0 x1) - (u0.scale * x0 + u1.scale * x1)|
+        ≤ 1e-9 * max |u0.scale| |u1.scale| * |x1| := by
+  obtain ⟨o, a, _, c⟩ := preserve_rule_covariant_isclose 1e-9 (by norm_num) (eqTol 1e-9) (eqTol_tol _) pre t "add"
+    (by decide) u0 u1 false false h0 h1 hd hs
+  exact ⟨o, a, c _ add_hom1 add_lip2 x0 x1⟩
+
 end Unyt.C04
